@@ -16,6 +16,8 @@ import (
 type flagBinding struct {
 	ptr  Pointer
 	kind string // "string", "bool", "stringArray"
+	// deprecated is the usage message given to MarkDeprecated ("" = not deprecated)
+	deprecated string
 }
 
 func (m *Machine) flagTable() map[string]flagBinding {
@@ -137,33 +139,67 @@ func init() {
 	reg(fs+"StringVarP", bind("string"))
 	reg(fs+"BoolVarP", bind("bool"))
 	reg(fs+"Set", func(m *Machine, fn *ssa.Function, a []Value) Value {
-		name, ok := a[1].(string)
-		if !ok {
+		return m.flagSet(a[1], a[2])
+	})
+	// cobra's ParseFlags over concrete long-form arguments (--name, --name=value,
+	// --name value): each flag goes through the flag set's Set; the warnings
+	// gathered meanwhile (deprecated flags) are printed when parsing succeeded.
+	reg(cobra+"ParseFlags", func(m *Machine, fn *ssa.Function, a []Value) Value {
+		args := sliceElems(a[1].(Slice))
+		for i := 0; i < len(args); i++ {
+			arg, ok := args[i].(string)
+			if !ok || !strings.HasPrefix(arg, "--") || len(arg) < 3 {
+				unsupported("cobra.ParseFlags: only concrete long-form flags are modelled")
+			}
+			name, val, hasVal := strings.Cut(arg[2:], "=")
+			b, known := m.flagTable()[name]
+			if !known {
+				return m.newError("unknown flag: --" + name)
+			}
+			var v Value = val
+			if !hasVal {
+				if b.kind == "bool" {
+					v = "true"
+				} else {
+					if i+1 >= len(args) {
+						return m.newError("flag needs an argument: --" + name)
+					}
+					i++
+					v = args[i]
+				}
+			}
+			if err := m.flagSet(name, v).(Iface); err.T != nil {
+				return err
+			}
+		}
+		return Iface{}
+	})
+	reg(fs+"MarkDeprecated", func(m *Machine, fn *ssa.Function, a []Value) Value {
+		name, ok1 := a[1].(string)
+		msg, ok2 := a[2].(string)
+		if !ok1 || !ok2 {
 			unsupported("pflag: symbolic flag name")
 		}
 		b, ok := m.flagTable()[name]
 		if !ok {
-			return m.newError("no such flag -" + name)
+			return m.newError("flag \"" + name + "\" does not exist")
 		}
-		switch b.kind {
-		case "string":
-			b.ptr.store(a[2])
-		case "bool":
-			s, ok := a[2].(string)
-			if !ok {
-				unsupported("pflag: symbolic bool flag value")
-			}
-			v, err := strconv.ParseBool(s)
-			if err != nil {
-				return m.newError("invalid bool " + s)
-			}
-			b.ptr.store(v)
-		case "stringArray":
-			cur := b.ptr.load().(Slice)
-			elems := append(append([]Value(nil), sliceElems(cur)...), a[2])
-			b.ptr.store(Slice{C: m.newCell(&Array{E: elems}), Len: len(elems), Cap: len(elems)})
+		if msg == "" {
+			return m.newError("deprecated message for flag \"" + name + "\" must be set")
 		}
+		b.deprecated = msg
+		m.flagTable()[name] = b
 		return Iface{}
+	})
+	reg(fs+"MarkHidden", func(m *Machine, fn *ssa.Function, a []Value) Value {
+		name, ok := a[1].(string)
+		if !ok {
+			unsupported("pflag: symbolic flag name")
+		}
+		if _, ok := m.flagTable()[name]; !ok {
+			return m.newError("flag \"" + name + "\" does not exist")
+		}
+		return Iface{} // only affects help text, which no harness prints
 	})
 	// handles returned by the virtual environment's OpenFile / Create
 	for _, meth := range []string{"Close", "Sync"} {
@@ -205,6 +241,56 @@ func init() {
 		return a[1]
 	})
 	globalInits["io.Discard"] = func(m *Machine) Value { return m.discardWriter() }
+	// sentinel errors of packages whose initialisers are not executed
+	globalInits["io.EOF"] = func(m *Machine) Value { return m.newError("EOF") }
+	globalInits["io.ErrUnexpectedEOF"] = func(m *Machine) Value { return m.newError("unexpected EOF") }
+}
+
+// flagSet is (*pflag.FlagSet).Set on the bindings recorded by the *VarP calls.
+func (m *Machine) flagSet(a1, a2 Value) Value {
+	name, ok := a1.(string)
+	if !ok {
+		unsupported("pflag: symbolic flag name")
+	}
+	b, ok := m.flagTable()[name]
+	if !ok {
+		return m.newError("no such flag -" + name)
+	}
+	if b.deprecated != "" {
+		// pflag writes the notice to the flag set's output; under cobra that is
+		// the command's flagErrorBuf, which ParseFlags prints through
+		// c.Print (OutOrStderr: the SetOut writer when one is set) before RunE.
+		notice := "Flag --" + name + " has been deprecated, " + b.deprecated + "\n"
+		if w, ok := m.env["stdout"]; ok {
+			m.writeTo(w.(Value), StrT(notice))
+		} else {
+			m.env["stderr.text"] = stringOr(m.env["stderr.text"]) + notice
+		}
+	}
+	switch b.kind {
+	case "string":
+		b.ptr.store(a2)
+	case "bool":
+		s, ok := a2.(string)
+		if !ok {
+			unsupported("pflag: symbolic bool flag value")
+		}
+		v, err := strconv.ParseBool(s)
+		if err != nil {
+			return m.newError("invalid bool " + s)
+		}
+		b.ptr.store(v)
+	case "stringArray":
+		cur := b.ptr.load().(Slice)
+		elems := append(append([]Value(nil), sliceElems(cur)...), a2)
+		b.ptr.store(Slice{C: m.newCell(&Array{E: elems}), Len: len(elems), Cap: len(elems)})
+	}
+	return Iface{}
+}
+
+func stringOr(v any) string {
+	s, _ := v.(string)
+	return s
 }
 
 // globalInits gives initial values to package-level variables of packages
